@@ -44,6 +44,8 @@ def gen(rng, tier):
            'kl_clip': rng.choice([None, None, 0.001]),
            'allreduce_bucket_cap_mb': rng.choice([0.0, 25.0]), 'factor_update_steps': 1, 'inv_update_steps': rng.choice([1, 1, 2]),
            'accumulation_steps': 1}
+    if rng.random() < 0.35:         # second-order data in the dtype of the gradients (no converting copy between them)
+        cfg['inv_dtype'] = 'float64'
     hist = [['train', 1] for _ in range(rng.randint(1, 3))]
     if rng.random() < 0.3:          # a damping schedule with inverses reused across steps: the CURRENT damping must be used (plain eigen path)
         cfg['damping'] = ['table', [rng.choice([0.5, 0.25, 1.0, 2.0]) for _ in range(6)]]
